@@ -625,6 +625,8 @@ func manyRootsFamily(c *Ctx, prop string) {
 	switch prop {
 	case "C01":
 		or = HistOracle{Roots: true, Prop: prop}
+	case "C02":
+		or = HistOracle{Proofs: true, ProofSets: "ends", Prop: prop}
 	case "C06":
 		or = HistOracle{Roots: true, Lookups: true, Proofs: true, ProofSets: "ends", Prop: prop}
 	case "C10":
@@ -637,15 +639,16 @@ func manyRootsFamily(c *Ctx, prop string) {
 		insts = append([]InstCfg{{Kind: "stump"}}, insts...)
 	}
 	fam := &HistFamily{Nmax: 1 << 20, Insts: insts, Or: or, UndoBud: 3}
-	Ns := []int{1<<17 - 1}
+	Ns := []int{1<<17 - 1, 1<<17 + 2}
 	if c.Thorough() {
-		Ns = []int{1<<16 - 1, 1<<17 - 1, 1<<18 - 1, 1<<17 + 1<<16 - 1}
+		Ns = []int{1<<16 - 1, 1<<17 - 1, 1<<17 + 2, 1<<18 - 1, 1<<17 + 1<<16 - 1}
 	}
 	c.Cov.Bound["many_roots.N"] = fmt.Sprint(Ns)
 	var hists [][]Op
 	for _, N := range Ns {
 		// the one-leaf tree; the two smallest trees; the second smallest tree only
-		for _, S := range [][]int{{N - 1}, {N - 3, N - 2, N - 1}, {N - 3, N - 2}} {
+		// ... and two early leaves of the biggest tree (17+ rows below its root for N > 2^17)
+		for _, S := range [][]int{{N - 1}, {N - 3, N - 2, N - 1}, {N - 3, N - 2}, {5, 1<<15 + 5}} {
 			for _, k := range []int{1, 2} {
 				h := []Op{{Kind: "block", Adds: N}, {Kind: "block", Dels: S}, {Kind: "block", Adds: k}}
 				hists = append(hists, h, append(append([]Op(nil), h...), Op{Kind: "undo"}), append(append([]Op(nil), h...), Op{Kind: "undo"}, Op{Kind: "undo"}))
